@@ -194,6 +194,10 @@ def uvl_expr(g, names, depth):
             at = rng.choice(["price", "size in GB", "ñ", "cost", "1st", "features"])
             if "." not in nm and '"' not in nm and not nm.startswith("'"):
                 g.count("uvl_choice_model", "qualified-reference")
+                if rng.random() < 0.3:
+                    # a reference into a nested map attribute: three parts
+                    g.count("uvl_choice_model", "qualified-reference-3-parts")
+                    return T(nm + "." + at + "." + rng.choice(["power", "inner key", "x1"]))
                 return T(nm + "." + at)
         return T(rng.choice(names))
     k = rng.randrange(7)
